@@ -2,8 +2,9 @@
 # usage: tools/verify_mutant.sh <ID> <n>   (uses scratch worktree /tmp/mut/wt-<ID>, pristine base)
 # Confirms: patch applies+builds, demo FAILS with it, existing suite passes with it, demo PASSES without it.
 id=$1; n=$2
-wt=/tmp/mut/wt-$id; d=/tmp/mut/out/$id/$n; out=/tmp/mut/verify/$id-$n.json
-mkdir -p /tmp/mut/verify
+R=${MUTROOT:-/tmp/mut}
+wt=$R/wt-$id; d=$R/out/$id/$n; out=$R/verify/$id-$n.json
+mkdir -p $R/verify
 export GOFLAGS=-mod=mod GOPROXY=off GOSUMDB=off GOTOOLCHAIN=local
 cd $wt || exit 2
 git checkout -q -- . ; git clean -fdq
@@ -12,14 +13,14 @@ dest=$(grep -m1 -oE "copy to: *[^ ]+" $d/$demo | sed 's/copy to: *//')
 [ -z "$dest" ] && dest=pkg/protocol/
 cp $d/$demo $wt/$dest/zz_demo_${id}_${n}_test.go
 pkg=./$(echo $dest | sed 's:/$::')
-run_demo() { go test -vet=off -count=1 -timeout 300s -run 'Demo|C[0-9][0-9]' $pkg > /tmp/mut/verify/$id-$n.demo.$1.log 2>&1; echo $?; }
+run_demo() { go test -vet=off -count=1 -timeout 300s -run 'Demo|C[0-9][0-9]' $pkg > $R/verify/$id-$n.demo.$1.log 2>&1; echo $?; }
 without=$(run_demo without)
 git apply $d/patch.diff || { echo "{\"id\":\"$id-$n\",\"applies\":false}" > $out; git checkout -q -- .; git clean -fdq; exit 1; }
-go build ./... > /tmp/mut/verify/$id-$n.build.log 2>&1; build=$?
+go build ./... > $R/verify/$id-$n.build.log 2>&1; build=$?
 with=$(run_demo with)
 rm -f $wt/$dest/zz_demo_${id}_${n}_test.go
-go test -vet=off -count=1 -timeout 25m ./... > /tmp/mut/verify/$id-$n.suite.log 2>&1; suite=$?
-if [ $suite -ne 0 ]; then go test -vet=off -count=1 -timeout 25m ./... > /tmp/mut/verify/$id-$n.suite.log 2>&1; suite=$?; fi
+go test -vet=off -count=1 -timeout 25m ./... > $R/verify/$id-$n.suite.log 2>&1; suite=$?
+if [ $suite -ne 0 ]; then go test -vet=off -count=1 -timeout 25m ./... > $R/verify/$id-$n.suite.log 2>&1; suite=$?; fi
 git checkout -q -- . ; git clean -fdq
 echo "{\"id\":\"$id-$n\",\"applies\":true,\"build_rc\":$build,\"demo_without_rc\":$without,\"demo_with_rc\":$with,\"suite_with_rc\":$suite}" > $out
 cat $out
